@@ -77,6 +77,7 @@ class Runner:
         self.crash_line = {}  # pid -> (line n, sig)
         self.preempt = scn.get("cfg", {}).get("preempt", 0)
         self.k.on_idle.append(self.idle_hook)
+        self.w.on_kill.append(self.on_proc_killed)
         self.extra_idle = []
         self.status = None
 
@@ -177,6 +178,7 @@ class Runner:
         kind = spec.get("kind", "sched")
         proc = w.new_proc(kind)
         proc.info["index"] = i
+        proc.info["xp"] = spec.get("xp")
         self.pids[i] = proc.pid
         st = self.states[i] = ProcState()
         k.log("proc-start", index=i, pid=proc.pid, kind=kind)
@@ -469,6 +471,59 @@ class Runner:
             "failed": sorted(self.w.k.oid(j, "j") for j in getattr(xp, "failedJobs", {}).values()) if xp is not None else None,
         }
 
+    def on_proc_killed(self, proc):
+        if proc.kind == "sched" and proc.info.get("xp"):
+            self.k.log("index", xp=proc.info["xp"], when="killed", victim=proc.pid,
+                       snap=self.index_snapshot(proc.info["xp"]))
+
+    def all_rels(self):
+        return {str(x): self.rel_of(x) for x in sorted(self.w.jobdir)}
+
+    def run_orphans(self):
+        """Output of the real `experimaestro orphans <ws>` command (read-only)."""
+        import contextlib
+        import io
+
+        import experimaestro.cli as xcli
+
+        ws = self.w.ws
+        if not (ws / ".__experimaestro__").is_file():
+            return None
+        buf = io.StringIO()
+        try:
+            with contextlib.redirect_stdout(buf):
+                xcli.orphans.callback(path=ws, clean=False, size=False, show_all=False, ignore_old=False)
+        except BaseException as e:
+            return {"error": "%s: %s" % (type(e).__name__, e)}
+        lines = [l.strip() for l in buf.getvalue().splitlines() if l.strip()]
+        return {"orphans": [l for l in lines if not l.endswith("jobs are not orphans")], "raw": lines[-3:]}
+
+    def index_snapshot(self, name):
+        """Symlink index of an experiment as seen on disk: {rel: link target}."""
+        base = self.w.ws / "xp" / name
+        out = {}
+        for sub in ("jobs", "jobs.bak"):
+            d = base / sub
+            if not d.is_dir():
+                out[sub] = None
+                continue
+            links = {}
+            for p in sorted(d.glob("*/*")):
+                if p.is_symlink():
+                    links["%s/%s" % (p.parent.name, p.name)] = os.readlink(p)
+                else:
+                    links["%s/%s" % (p.parent.name, p.name)] = "<not a link>"
+            out[sub] = links
+        jd = self.w.ws / "jobs"
+        out["dirs"] = sorted("%s/%s" % (p.parent.name, p.name) for p in jd.glob("*/*") if p.is_dir()) if jd.is_dir() else []
+        return out
+
+    def rel_of(self, x):
+        d = self.w.jobdir.get(x)
+        if d is None:
+            return None
+        return "%s/%s" % (os.path.basename(os.path.dirname(d)), os.path.basename(d))
+
     def sched_main(self, proc, spec, st):
         from experimaestro import experiment
 
@@ -483,12 +538,16 @@ class Runner:
                     self.do_op(proc, st, op)
                 k.log("xp-block-end")
             k.log("xp-exit", exc=None, states=self.job_states(st))
+            k.log("index", xp=spec["xp"], when="exit", snap=self.index_snapshot(spec["xp"]),
+                  rels={str(x): self.rel_of(x) for x in st.jobs}, dirs={str(x): self.w.jobdir.get(x) for x in st.jobs})
         except BaseException as e:
             exc = e
             if isinstance(e, wmod_abandon()):
                 raise
             k.log("xp-exit", exc=type(e).__name__, msg=str(e)[:200], states=self.job_states(st),
                   tb=short_tb(e))
+            k.log("index", xp=spec["xp"], when="exit", snap=self.index_snapshot(spec["xp"]),
+                  rels={str(x): self.rel_of(x) for x in st.jobs}, dirs={str(x): self.w.jobdir.get(x) for x in st.jobs})
         for op in spec.get("after", []):
             try:
                 self.do_op(proc, st, op)
@@ -566,6 +625,9 @@ class Runner:
             "parked": parked,
             "counters": dict(k.counters),
             "site": getattr(w, "site", None),
+            "index": {name: self.index_snapshot(name) for name in sorted({p.get("xp") for p in self.scn["procs"] if p.get("xp")})},
+            "rels": self.all_rels(),
+            "orphans": self.run_orphans() if self.scn.get("cfg", {}).get("orphans") else None,
         }
 
 
